@@ -344,6 +344,11 @@ func parseIndexPage(page []byte, pageNum uint32, indexType IndexType) IndexPageI
 		}
 	}
 	
+	// A metapage has no line pointer array (its pd_lower points past the metadata): it holds no items
+	if info.IsMeta {
+		info.ItemCount = 0
+	}
+	
 	return info
 }
 
@@ -414,6 +419,8 @@ func parseHashPageSpecial(info *IndexPageInfo, special []byte) {
 	}
 	if info.Flags&LHBitmap != 0 {
 		info.FlagStrings = append(info.FlagStrings, "BITMAP")
+		// a bitmap page holds the free-space bitmap, no line pointers
+		info.ItemCount = 0
 	}
 	if info.Flags&LHMeta != 0 {
 		info.FlagStrings = append(info.FlagStrings, "META")
@@ -472,7 +479,12 @@ func parseGINPageSpecial(info *IndexPageInfo, special []byte) {
 	maxOff := binary.LittleEndian.Uint16(special[4:6])
 	info.Flags = binary.LittleEndian.Uint16(special[6:8])
 	
-	info.ItemCount = int(maxOff)
+	// maxoff counts the posting items / item pointers of a posting-tree page (GIN_DATA; GIN_COMPRESSED
+	// is only ever set on such a page).  Entry-tree and pending-list pages keep their tuples behind
+	// ordinary line pointers (count from pd_lower, set by parseIndexPage) and leave maxoff at 0.
+	if info.Flags&(GINData|GINCompressed) != 0 {
+		info.ItemCount = int(maxOff)
+	}
 	info.IsLeaf = info.Flags&GINLeaf != 0
 	info.IsMeta = info.Flags&GINMeta != 0
 	info.IsDeleted = info.Flags&GINDeleted != 0
@@ -537,7 +549,12 @@ func parseBRINPageSpecial(info *IndexPageInfo, special []byte) {
 	}
 	
 	info.Flags = binary.LittleEndian.Uint16(special[4:6])
-	info.IsMeta = binary.LittleEndian.Uint16(special[6:8]) == BRINPageTypeMeta
+	pageType := binary.LittleEndian.Uint16(special[6:8])
+	info.IsMeta = pageType == BRINPageTypeMeta
+	// a range-map page holds an array of TIDs, no line pointers
+	if pageType == BRINPageTypeRevmap {
+		info.ItemCount = 0
+	}
 	
 	if info.Flags&BRINEvacuatePage != 0 {
 		info.FlagStrings = append(info.FlagStrings, "EVACUATE_PAGE")
